@@ -48,7 +48,10 @@ MD == INSTANCE Model
 EvR(e) == [t |-> e.t, ty |-> e.ty, pid |-> e.pid]
 MsgEv(m) == [t |-> msg[m].t, ty |-> msg[m].ty, pid |-> msg[m].pid]
 RECURSIVE RefMS(_, _, _)
-RefMS(p, m, i) == IF i = 0 THEN 0 ELSE LET e == hist[p][i] IN IF e.k # "e" \/ MD!EvBefore(MsgEv(m), EvR(e)) THEN RefMS(p, m, i - 1) ELSE i
+\* (an entry of the history that was cancelled in place by its sender sorts first at its timestamp, like in the queue: the scan stops there;
+\* the anti-message that follows rolls back further and the straggler is then matched again)
+RefMS(p, m, i) == IF i = 0 THEN 0 ELSE LET e == hist[p][i] IN
+                  IF e.k # "e" \/ (MD!EvBefore(MsgEv(m), EvR(e)) /\ ~(msg[m].t = e.t /\ TW!Live(e.m) /\ TW!HasAnti(msg[e.m].flags))) THEN RefMS(p, m, i - 1) ELSE i
 RefMatchStraggler(p, m) == RefMS(p, m, Len(hist[p]) - 1)
 RECURSIVE RefMA(_, _)
 RefMA(p, i) == IF i = 0 THEN 0 ELSE IF hist[p][i].k = "e" THEN i ELSE RefMA(p, i - 1)
@@ -142,7 +145,8 @@ TExtract ==
   \* strict: among equal timestamps the queue order is anti-messages first, then the content order
   /\ div' = IF ~TW!Live(Line.m) THEN div
             \* (only among events that are not cancelled: the heap position of an entry is not revised when its flag changes)
-            ELSE Diverge(TW!HasAnti(msg[Line.m].flags) \/
+            \* (and only when no entry with that timestamp was cancelled while queued: its stale position also perturbs the order of the others)
+            ELSE Diverge(TW!HasAnti(msg[Line.m].flags) \/ (\E x \in TW!HeapOf(R) : msg[x].t = msg[Line.m].t /\ TW!HasAnti(msg[x].flags)) \/
                          \A x \in TW!HeapOf(R) : ~(msg[x].t = msg[Line.m].t /\ ~TW!HasAnti(msg[x].flags)
                                                      /\ msg[x].ty # -1 /\ MD!EvBefore(MsgEv(x), MsgEv(Line.m))),
                          "extracted event is not first in the content order among the events with its timestamp")
@@ -160,7 +164,9 @@ TRbBegin ==
   /\ UNCHANGED expect
   /\ LET m == hand[R] IN
      div' = IF m = 0 \/ ~TW!Live(m) \/ (TW!FromNet(m) /\ TW!HasAnti(msg[m].flags)) THEN div
-            ELSE IF TW!HasAnti(msg[m].flags)
+            \* (the code branched on the flag word it read at extraction; the cancellation flag may have been set since by the sender: a
+            \* rollback for an anti-message is recognised by the message being in the history)
+            ELSE IF TW!IdxOf(Line.lp, "e", m) # {}
                  THEN Diverge(Line.past = RefMatchAnti(Line.lp, m), "rollback point chosen for an anti-message differs from match_anti_msg")
                  ELSE Diverge(Line.past = RefMatchStraggler(Line.lp, m), "rollback point chosen for a straggler differs from match_straggler_msg")
 
